@@ -459,12 +459,35 @@ def pageGuars (valid : Bytes → Bool) (N : Nat) (cols : List Col) (page : List 
 def pageDecision (valid : Bytes → Bool) (N : Nat) (cols : List Col) (page : List Row) (p : Pred) : Out :=
   dec (pageGuars valid N cols page) p
 
-/-- FragmentScanner::scan / read_batch for one page with statistics -/
+/-- a (sub)predicate that was folded to a literal evaluates to that literal, otherwise it is evaluated on the row -/
+def pick (o : Out) (e : Option Bool) : Option Bool :=
+  match o with
+  | .T => some true
+  | .F => some false
+  | .N => none
+  | .U => e
+
+/-- evaluation of the SIMPLIFIED predicate on a row: read_batch evaluates what the simplifier returned, not the original
+    predicate — leaves folded to a literal are constants (a leaf that is not folded mentions no replaced column) -/
+def evalS (gs : List Guar) (r : Row) : Pred → Option Bool
+  | .cmp c op l => pick (leafCmp gs[c]? op l) (eval3 r (.cmp c op l))
+  | .isNull c => pick (leafIsNull gs[c]?) (eval3 r (.isNull c))
+  | .notNull c => pick (leafIsNull gs[c]?).flip (eval3 r (.notNull c))
+  | .inList c neg items =>
+    pick (if neg then (leafIn gs[c]? items).flip else leafIn gs[c]? items) (eval3 r (.inList c neg items))
+  | .and a b => and3 (evalS gs r a) (evalS gs r b)
+  | .or a b => or3 (evalS gs r a) (evalS gs r b)
+  | .not a => (evalS gs r a).map (!·)
+
+def satS (gs : List Guar) (r : Row) (p : Pred) : Bool := evalS gs r p == some true
+
+/-- FragmentScanner::scan / read_batch for one page with statistics: literal `false` → skipped, literal `true` → read
+    unfiltered, otherwise the simplified predicate is evaluated -/
 def scanOn (valid : Bytes → Bool) (N : Nat) (cols : List Col) (page : List Row) (p : Pred) : List Row :=
   match pageDecision valid N cols page p with
   | .F => []
   | .T => page
-  | _ => page.filter (sat · p)
+  | _ => page.filter (satS (pageGuars valid N cols page) · p)
 
 /-- the scan without statistics: evaluate on every row -/
 def scanOff (page : List Row) (p : Pred) : List Row := page.filter (sat · p)
